@@ -58,7 +58,7 @@ var goSrcFuncs = []string{
 	"Array.AsFloat", "Array.AsInteger", "Array.AsUint64",
 	"ParsedJson.get_current_loc", "ParsedJson.write_tape", "ParsedJson.writeTapeTagVal", "ParsedJson.writeTapeTagValFlags",
 	"ParsedJson.write_tape_s64", "ParsedJson.write_tape_double", "ParsedJson.annotate_previousloc", "parseString", "addNumber",
-	"min", "max", "fmtF", "appendFloatF", "appendFloat", "Serializer.indexString", "Object.FindKey", "Object.FindPath", "Iter.Object", "Iter.Array", "Iter.Root", "Iter.Root#self", "Iter.FindElement", "Array.AsString", "Array.AsStringCvt", "ParsedJson.stringAt", "Iter.String", "floatToString", "Iter.StringCvt", "Object.NextElement",
+	"min", "max", "fmtF", "appendFloatF", "appendFloat", "Serializer.indexString", "Object.FindKey", "Object.FindPath", "Iter.Object", "Iter.Array", "Iter.Root", "Iter.Root#self", "Iter.FindElement", "Array.AsString", "Array.AsStringCvt", "Object.Parse", "Elements.MarshalJSONBuffer", "ParsedJson.stringAt", "Iter.String", "floatToString", "Iter.StringCvt", "Object.NextElement",
 }
 
 // functions in which constant expressions are folded (as the compiler does) before printing; the functions translated
@@ -104,6 +104,7 @@ var structKinds = map[string]structKind{
 	"Array":      {fields: []string{"off"}, ftypes: map[string]gty{"off": tyInt}},
 	"ParsedJson": {fields: []string{}, ftypes: map[string]gty{}},
 	"Serializer": {fields: []string{"stringsTable", "stringBuf", "stringWr.out", "tagsBuf", "valuesBuf", "memHash.answers"}, ftypes: map[string]gty{"memHash.answers": tyU64s, "stringsTable": tyU32s, "stringBuf": tyBytes, "stringWr.out": tyBytes, "tagsBuf": tyBytes, "valuesBuf": tyBytes}, noTape: true},
+	"Elements": {fields: []string{"Elements.Name", "Elements.Type", "Elements.Iter", "Index.k", "Index.v"}, ftypes: map[string]gty{"Elements.Name": tyStrs, "Elements.Type": tyBytes, "Elements.Iter": tyI64s, "Index.k": tyStrs, "Index.v": tyI64s}, noTape: true},
 	"Element": {fields: []string{"Name", "Type", "Iter.off", "Iter.addNext", "Iter.cur", "Iter.t", "Iter.lim"}, ftypes: map[string]gty{"Name": tyBytes, "Type": tyU8}, noTape: true},
 	"decimalSlice": {fields: []string{"d", "nd", "dp", "neg"}, ftypes: map[string]gty{"d": tyBytes, "nd": tyInt, "dp": tyInt, "neg": tyBool}, noTape: true},
 }
@@ -118,6 +119,16 @@ func kindFields(k string) string {
 
 // valKind: a struct passed by value (treated like a pointer parameter that the callee must not assign to)
 func valKind(e ast.Expr) (string, bool) {
+	id, ok := e.(*ast.Ident)
+	if !ok {
+		return "", false
+	}
+	k, ok := structKinds[id.Name]
+	return id.Name, ok && k.noTape
+}
+
+// valKindAny: any plain (tape-less) struct kind named by the type expression
+func valKindAny(e ast.Expr) (string, bool) {
 	id, ok := e.(*ast.Ident)
 	if !ok {
 		return "", false
@@ -226,7 +237,7 @@ func tyOfTypeExpr(e ast.Expr) gty {
 			return tyKeys
 		}
 	case *ast.StarExpr:
-		if id, ok := t.X.(*ast.Ident); ok && (id.Name == "Element" || id.Name == "Iter" || id.Name == "Object" || id.Name == "Array") {
+		if id, ok := t.X.(*ast.Ident); ok && (id.Name == "Element" || id.Name == "Elements" || id.Name == "Iter" || id.Name == "Object" || id.Name == "Array") {
 			return tyPtr
 		}
 	case *ast.Ellipsis:
@@ -602,6 +613,11 @@ func (t *gsTr) expr(e ast.Expr, want gty) (string, gty) {
 	case *ast.CallExpr:
 		if id, ok := x.Fun.(*ast.Ident); ok && len(x.Args) == 1 {
 			if id.Name == "len" {
+				if sx, ok := x.Args[0].(*ast.SelectorExpr); ok && sx.Sel.Name == "Elements" {
+					if eid, ok := sx.X.(*ast.Ident); ok && t.kinds[eid.Name] == "Elements" {
+						return fmt.Sprintf("(.lenK (.v %s))", strconv.Quote(eid.Name+".Elements.Name")), tyInt
+					}
+				}
 				if base, ok := t.isTape(x.Args[0]); ok {
 					return fmt.Sprintf("(.lenTape %s)", strconv.Quote(base)), tyInt
 				}
@@ -786,6 +802,14 @@ func (t *gsTr) expr(e ast.Expr, want gty) (string, gty) {
 					bs = append(bs, strconv.Itoa(int(c)))
 				}
 				return fmt.Sprintf("(.litB [%s] /- %s -/)", strings.Join(bs, ", "), strings.ReplaceAll(lit.Value, "-/", "- /")), tyBytes
+			}
+			if _, isLit := x.Args[0].(*ast.BasicLit); !isLit {
+				// []byte(s) for a string s: a string is its bytes (the copy is not observable: byte slices have no identity here)
+				a, aty := t.expr(x.Args[0], tyBytes)
+				if aty != tyBytes {
+					gsDie(e, "[]byte conversion operand")
+				}
+				return a, tyBytes
 			}
 		case f == "unsafeBytesToString" && len(x.Args) == 1:
 			// a string sharing the bytes of the slice: a string is its bytes
@@ -1367,6 +1391,11 @@ func (t *gsTr) methodCall(call *ast.CallExpr) (recv, callee string, ptrs, args [
 		recv, callee = name, k+"."+sel.Sel.Name
 	case *ast.SelectorExpr:
 		id, isId := x.X.(*ast.Ident)
+		if isId && x.Sel.Name == "Iter" && t.kinds[id.Name] == "Element" {
+			// e.Iter.M(…) for an Element e: the struct variable `e.Iter`
+			recv, callee = id.Name+".Iter", "Iter."+sel.Sel.Name
+			return t.callArgs(call, recv, callee)
+		}
 		if !isId || x.Sel.Name != "tape" || t.kinds[id.Name] == "" || t.kinds[id.Name] == "ParsedJson" {
 			return
 		}
@@ -1888,6 +1917,64 @@ func (t *gsTr) stmt0(s ast.Stmt, ind string) string {
 				}
 			}
 		}
+		// dst.Index[name] = len(dst.Elements)
+		if x.Tok == token.ASSIGN && len(x.Lhs) == 1 && len(x.Rhs) == 1 {
+			if ix, ok := x.Lhs[0].(*ast.IndexExpr); ok {
+				if sx, ok := ix.X.(*ast.SelectorExpr); ok && sx.Sel.Name == "Index" {
+					if id, ok := sx.X.(*ast.Ident); ok && t.kinds[id.Name] == "Elements" && !t.readonly[id.Name] {
+						k, kty := t.expr(ix.Index, tyBytes)
+						v, vty := t.expr(x.Rhs[0], tyInt)
+						if kty != tyBytes || vty != tyInt {
+							gsDie(s, "map store types")
+						}
+						return fmt.Sprintf(".mapSet %s %s %s", strconv.Quote(id.Name+".Index"), k, v)
+					}
+				}
+			}
+		}
+		// dst.Elements = append(dst.Elements, Element{Name: n, Type: t, Iter: it})
+		if x.Tok == token.ASSIGN && len(x.Lhs) == 1 && len(x.Rhs) == 1 {
+			if sx, ok := x.Lhs[0].(*ast.SelectorExpr); ok && sx.Sel.Name == "Elements" {
+				if id, ok := sx.X.(*ast.Ident); ok && t.kinds[id.Name] == "Elements" && !t.readonly[id.Name] {
+					ap, ok := x.Rhs[0].(*ast.CallExpr)
+					if !ok || nows(src(ap.Fun)) != "append" || len(ap.Args) != 2 || nows(src(ap.Args[0])) != nows(src(x.Lhs[0])) {
+						gsDie(s, "assignment to the Elements slice")
+					}
+					cl, ok := ap.Args[1].(*ast.CompositeLit)
+					if !ok || nows(src(cl.Type)) != "Element" || len(cl.Elts) != 3 {
+						gsDie(s, "appended element")
+					}
+					parts := map[string]ast.Expr{}
+					for _, el := range cl.Elts {
+						kv, ok := el.(*ast.KeyValueExpr)
+						if !ok {
+							gsDie(s, "appended element")
+						}
+						parts[nows(src(kv.Key))] = kv.Value
+					}
+					nm, nty := t.expr(parts["Name"], tyBytes)
+					ty, tty := t.expr(parts["Type"], tyU8)
+					itid, ok := parts["Iter"].(*ast.Ident)
+					if nty != tyBytes || tty != tyU8 || !ok || !t.iters[itid.Name] {
+						gsDie(s, "appended element fields")
+					}
+					n := id.Name
+					it := itid.Name
+					iters := fmt.Sprintf("(.v %s)", strconv.Quote(n+".Elements.Iter"))
+					for _, f := range []string{"off", "addNext", "cur", "t", "lim"} {
+						e := fmt.Sprintf("(.v %s)", strconv.Quote(it+"."+f))
+						if f == "cur" || f == "t" {
+							e = "(.conv .int " + e + ")"
+						}
+						iters = fmt.Sprintf("(.pushI %s %s)", iters, e)
+					}
+					return strings.Join([]string{
+						fmt.Sprintf(".assign %s (.pushK (.v %s) %s)", strconv.Quote(n+".Elements.Name"), strconv.Quote(n+".Elements.Name"), nm),
+						fmt.Sprintf(".assign %s (.pushB (.v %s) %s)", strconv.Quote(n+".Elements.Type"), strconv.Quote(n+".Elements.Type"), ty),
+						fmt.Sprintf(".assign %s %s", strconv.Quote(n+".Elements.Iter"), iters)}, ",\n"+ind)
+				}
+			}
+		}
 		// dst = &Object{} | &Array{}
 		if x.Tok == token.ASSIGN && len(x.Lhs) == 1 && len(x.Rhs) == 1 && (nows(src(x.Rhs[0])) == "&Object{}" || nows(src(x.Rhs[0])) == "&Array{}") {
 			if id, ok := x.Lhs[0].(*ast.Ident); ok && "&"+t.kinds[id.Name]+"{}" == nows(src(x.Rhs[0])) {
@@ -2222,6 +2309,25 @@ func (t *gsTr) stmt0(s ast.Stmt, ind string) string {
 			// the init statement runs first; what it defines is scoped to the `if` (the enclosing block's scope ends it)
 			pre = t.stmt(x.Init, ind) + ",\n" + ind
 		}
+		// if dst == nil { dst = &Elements{fresh} } else { empty dst.Elements; delete every key of dst.Index }: pinned by its text
+		if be, ok := x.Cond.(*ast.BinaryExpr); ok && be.Op == token.EQL && x.Init == nil {
+			if id, ok := be.X.(*ast.Ident); ok && t.kinds[id.Name] == "Elements" && nows(src(be.Y)) == "nil" {
+				n := id.Name
+				wantThen := "{" + n + "=&Elements{Elements:make([]Element,0,5),Index:make(map[string]int,5),}}"
+				wantElse := "{" + n + ".Elements=" + n + ".Elements[:0]fork:=range" + n + ".Index{delete(" + n + ".Index,k)}}"
+				if x.Else == nil || nows(src(x.Body)) != wantThen || nows(src(x.Else)) != wantElse {
+					gsDie(s, "the nil test of an *Elements destination has an unexpected shape")
+				}
+				t.aliasParams[n+"==nil"] = true
+				reset := strings.Join([]string{
+					fmt.Sprintf(".assign %s .nilK", strconv.Quote(n+".Elements.Name")),
+					fmt.Sprintf(".assign %s .nilB", strconv.Quote(n+".Elements.Type")),
+					fmt.Sprintf(".assign %s .nilI", strconv.Quote(n+".Elements.Iter")),
+					fmt.Sprintf(".assign %s .nilK", strconv.Quote(n+".Index.k")),
+					fmt.Sprintf(".assign %s .nilI", strconv.Quote(n+".Index.v"))}, ",\n"+ind+"  ")
+				return fmt.Sprintf(".ite (.v %s) [\n%s  .assign %s (.bool false),\n%s  %s] [\n%s  %s]", strconv.Quote(n+"==nil"), ind, strconv.Quote(n+"==nil"), ind, reset, ind, reset)
+			}
+		}
 		// if <receiver> == nil {A} else {B}: a receiver that is being executed on is not nil; A is dead (and, in a
 		// #self variant, may assign to the renamed parameter, which the subset has no form for)
 		if be, ok := x.Cond.(*ast.BinaryExpr); ok && be.Op == token.EQL && x.Init == nil && t.recv != "" {
@@ -2407,7 +2513,7 @@ func (t *gsTr) stmt0(s ast.Stmt, ind string) string {
 				fmt.Sprintf(".assign %s (.int 0)", strconv.Quote(n+".lim"))}, ",\n"+ind)
 		}
 		ty := tyOfTypeExpr(vs.Type)
-		zero := map[gty]string{tyInt: "(.int 0)", tyU64: "(.u64 0)", tyU8: "(.u8 0)", tyBool: "(.bool false)", tyBytes: ".nilB"}[ty]
+		zero := map[gty]string{tyInt: "(.int 0)", tyU64: "(.u64 0)", tyU8: "(.u8 0)", tyBool: "(.bool false)", tyBytes: ".nilB", tyErr: "(.bool false /- nil -/)"}[ty]
 		if at, ok := vs.Type.(*ast.ArrayType); ok && at.Len != nil {
 			if el, ok := at.Elt.(*ast.Ident); ok && (el.Name == "uint8" || el.Name == "byte") {
 				ty, zero = tyBytes, fmt.Sprintf("(.zerosB %s)", t.p.eval(at.Len, 0).String()) // a byte array used through slices of it
@@ -2436,6 +2542,39 @@ func (t *gsTr) stmt0(s ast.Stmt, ind string) string {
 		v, ok := x.Value.(*ast.Ident)
 		if !ok {
 			gsDie(s, "range value")
+		}
+		// for i, elem := range e.Elements: `elem` is a copy of the i-th element (its fields read out of the flattened slice)
+		if sx, isSel := x.X.(*ast.SelectorExpr); isSel && sx.Sel.Name == "Elements" {
+			if eid, isId := sx.X.(*ast.Ident); isId && t.kinds[eid.Name] == "Elements" {
+				if k.Name == "_" {
+					gsDie(s, "range over elements without an index")
+				}
+				n := eid.Name
+				t.locals[k.Name] = tyInt
+				t.kinds[v.Name] = "Element"
+				t.iters[v.Name+".Iter"] = true
+				t.kinds[v.Name+".Iter"] = "Iter"
+				base := fmt.Sprintf("(.bin .mul (.v %s) (.int 5))", strconv.Quote(k.Name))
+				at := func(j int) string {
+					return fmt.Sprintf("(.idxI (.v %s) (.bin .add %s (.int %d)))", strconv.Quote(n+".Elements.Iter"), base, j)
+				}
+				pre := []string{
+					fmt.Sprintf(".assign %s (.idxK (.v %s) (.v %s))", strconv.Quote(v.Name+".Name"), strconv.Quote(n+".Elements.Name"), strconv.Quote(k.Name)),
+					fmt.Sprintf(".assign %s (.idxB (.v %s) (.v %s))", strconv.Quote(v.Name+".Type"), strconv.Quote(n+".Elements.Type"), strconv.Quote(k.Name)),
+					fmt.Sprintf(".assign %s %s", strconv.Quote(v.Name+".Iter.off"), at(0)),
+					fmt.Sprintf(".assign %s %s", strconv.Quote(v.Name+".Iter.addNext"), at(1)),
+					fmt.Sprintf(".assign %s (.conv .u64 %s)", strconv.Quote(v.Name+".Iter.cur"), at(2)),
+					fmt.Sprintf(".assign %s (.conv .u8 %s)", strconv.Quote(v.Name+".Iter.t"), at(3)),
+					fmt.Sprintf(".assign %s %s", strconv.Quote(v.Name+".Iter.lim"), at(4)),
+				}
+				body := t.block(x.Body.List, ind)
+				body = "[\n" + ind + "  " + strings.Join(pre, ",\n"+ind+"  ") + ",\n" + ind + "  " + strings.TrimPrefix(strings.TrimPrefix(body, "[\n"), ind+"  ")
+				if body == "[\n"+ind+"  "+strings.Join(pre, ",\n"+ind+"  ")+",\n"+ind+"  []" {
+					gsDie(s, "empty range body")
+				}
+				return fmt.Sprintf(".forc [.assign %s (.int 0)] (.bin .lt (.v %s) (.lenK (.v %s))) [.assign %s (.bin .add (.v %s) (.int 1))] %s",
+					strconv.Quote(k.Name), strconv.Quote(k.Name), strconv.Quote(n+".Elements.Name"), strconv.Quote(k.Name), strconv.Quote(k.Name), body)
+			}
 		}
 		e, ety := t.expr(x.X, tyUnk)
 		if ety != tyBytes {
@@ -2744,11 +2883,21 @@ func genGoSrc(p *pkgInfo, out string) {
 			}
 			var isPtr bool
 			rkind, isPtr = ptrKind(fd.Recv.List[0].Type)
+			byValue := false
 			if !isPtr {
-				die("gosrc: %s: receiver must be a pointer to Iter, Object, Array or ParsedJson", fn)
+				// a plain struct received by value: the callee works on a copy of the fields (which is what copying them in
+				// means; that they are copied back is harmless as long as the callee does not assign to them: enforced)
+				if k, ok := valKindAny(fd.Recv.List[0].Type); ok {
+					rkind, byValue = k, true
+				} else {
+					die("gosrc: %s: receiver must be a pointer to Iter, Object, Array or ParsedJson, or a plain struct by value", fn)
+				}
 			}
 			t.recv = fd.Recv.List[0].Names[0].Name
 			t.kinds[t.recv] = rkind
+			if byValue {
+				t.readonly[t.recv] = true
+			}
 			if rkind == "Iter" {
 				t.iters[t.recv] = true
 			}
